@@ -79,9 +79,9 @@ def run(ctx):
             if fld == "dtype" and got is not None and got[0] == "f" and "resolve_dtype" in got[1]:
                 got = got[2][0]
             if fld == "dtype" and got is not None and got[0] == "phi":
-                got = [l for l in T.phi_leaves(got)][0]
-                if got[0] == "f" and "resolve_dtype" in got[1]:
-                    got = got[2][0]
+                # the constructor resolves a given dtype and falls back to the namespace default only for None
+                res = [l[2][0] for l in T.phi_leaves(got) if l[0] == "f" and "resolve_dtype" in l[1]]
+                got = res[0] if len(res) == 1 else got
             if fld == "parameters" and got is not None and got[0] == "phi":
                 got = T.select(got, ("is", want, T.NONE), False)
             ctx.decide(got == want, "C10.meta", construct, loc_of(mu), f"returned population carries {fld}",
@@ -223,22 +223,20 @@ def run(ctx):
     okg, whyg = False, "enlargement not found"
     if len(rsg) == 1:
         nf = T.atom("n_final_samples")
-        guard = [c for c, pol in rsg[0].conds if any(s_ == nf for s_ in T.subterms(c))]
-        pols = [pol for c, pol in rsg[0].conds if any(s_ == nf for s_ in T.subterms(c))]
-        parts = []
-        for c in guard:
-            parts += list(c[1]) if c[0] == "and" else [c]
-        requested = ("not", ("is", nf, T.NONE))
+        from .common import flat_conds
+        fc = {(c, pol) for c, pol in flat_conds(rsg[0].conds) if any(s_ == nf for s_ in T.subterms(c))}
+        requested = (("is", nf, T.NONE), False)
 
-        def differs(c):
-            if not (c[0] == "cmp" and c[1] == "!=" and len(c) == 3):
+        def differs(cp):
+            c, pol = cp
+            if not (c[0] == "cmp" and c[1] == "==" and len(c) == 3 and pol is False):
                 return False
             lf = T.linear_form(c[2])
             keys = [k for k in lf if k != ()]
             return lf.get((), 0) == 0 and len(keys) == 2 and nf in keys and lf[nf] == -lf[[k for k in keys if k != nf][0]] \
                 and [k for k in keys if k != nf][0][0] == "f" and [k for k in keys if k != nf][0][1] == "len"
-        okg = all(pols) and requested in parts and all(p_ == requested or differs(p_) for p_ in parts)
-        whyg = "the enlargement runs when " + " and ".join(T.show(p_)[:80] for p_ in parts) + ("" if all(pols) else " is false")
+        okg = requested in fc and all(cp == requested or differs(cp) for cp in fc)
+        whyg = "the enlargement runs when " + " and ".join(("" if pol else "not ") + T.show(c)[:80] for c, pol in sorted(fc, key=repr))
     ctx.decide(okg, "C10.final", smp_.ident, loc_of(smp_, rsg[0].node if rsg else None),
                "the population is enlarged exactly when a final size is requested that differs from the current size",
                f"{whyg}: the returned population does not have the requested size", disc="guard")
